@@ -105,7 +105,9 @@ def tlc(wd, module, cfg=None, workers=None, timeout=900, simulate=None, depth=No
     mv = re.search(r"Error: Invariant (\S+) is violated|Error: Action property (\S+) is violated|Error: Temporal properties were violated", out)
     if mv:
         res["violated"] = mv.group(1) or mv.group(2) or "temporal"
-    hard = re.search(r"TLC threw an unexpected exception|Error: .*(evaluat|Parsing or semantic|attempted to|was not)|StackOverflowError|OutOfMemoryError|Fatal error", out)
+    hard = re.search(r"TLC threw an unexpected exception|Error: .*(evaluat|Parsing or semantic|attempted to|was not|not a legal state|not completely specified|Unknown operator|is not a)|StackOverflowError|OutOfMemoryError|Fatal error", out)
+    if not hard and not mv and not simulate and not re.search(r"states generated", out):
+        hard = re.search(r"Error: .*", out) or re.search(r".", "x")      # a model-checking run that reports no state count did not run
     res["ok"] = (rc == 0 and not mv and not hard)
     if hard and not mv:
         raise Inconclusive(f"TLC error on {module}:\n" + "\n".join(out.splitlines()[-40:]))
